@@ -50,6 +50,9 @@ func Exec(c *vlib.HistCase) (nontrivial bool, labels []string, fail *vlib.Failur
 	}
 	for i, st := range c.Steps {
 		res := h.RunStep(st)
+		if os.Getenv("VERIF_DEBUG") != "" {
+			fmt.Printf("DEBUG step %d: %s ok=%v err=%s\n  lastrec=%s\n  dev=%s\n", i, describe(res), res.OK, res.ErrText(), vlib.JSON(h.Dev.LastRecord()), vlib.JSON(h.Dev.Snapshot()))
+		}
 		if !res.OK {
 			// C01 speaks about successful transactions only; every request of this
 			// generator is valid, so a refusal is counted and the history stops.
